@@ -131,6 +131,8 @@ func errClass(err string) string {
 		return "negcoin"
 	case strings.Contains(err, "Int overflow"):
 		return "overflow"
+	case strings.Contains(err, "out of bound"):
+		return "bound"
 	case strings.Contains(err, "redelegation to this validator already in progress"):
 		return "transitive"
 	}
